@@ -81,3 +81,80 @@ Definition boost_spec (t n : Q) : Q :=
   if Qlt_bool t n then (1 # 2) * t / n else 1 - (1 # 2) * (1 - t) / (1 - n).
 
 Definition rescale_spec (purity obs : Q) : Q := (obs - (1 # 2) * (1 - purity)) / purity.
+
+(* ==== additions of the C18 extension ============================================================== *)
+
+(* ---- IEEE values up to the equality of the finite ones ------------------------------------------- *)
+
+Definition xr_eq (a b : xr) : Prop :=
+  match a, b with
+  | RFin x, RFin y => x == y
+  | RPInf, RPInf => True
+  | RNInf, RNInf => True
+  | RNaN, RNaN => True
+  | _, _ => False
+  end.
+
+(* ---- load_het_snps after the read, as a decision table in the property's own numbers -------------- *)
+
+(* every normal genotype is 0/0 (or the column was filled with 0): `not varr["n_zygosity"].any()` *)
+Definition normal_all_ref (rows : list vrow) : bool :=
+  forallb (fun r => match v_n r with Some n => Qeq_bool (g_zyg n) 0 | None => true end) rows.
+
+(* the zygosity_freq in force: the one asked for; else 1/4 when a normal is there and all its
+   genotypes are reference (the Mutect2 work-around); else none (the genotypes of the file decide) *)
+Definition zfreq_in_force (paired : bool) (zf : option Q) (rows : list vrow) : option Q :=
+  match zf with
+  | Some z => Some z
+  | None => if paired && normal_all_ref rows then Some (1 # 4) else None
+  end.
+
+Definition regeno_g (f : Q) (g : gcols) : gcols :=
+  {| g_zyg := zyg_from_freq_spec f (1 - f) (g_freq g); g_depth := g_depth g; g_count := g_count g;
+     g_freq := g_freq g |}.
+
+(* zygosity_from_freq(f, 1 - f): BOTH the sample's and the normal's zygosity from their own frequency *)
+Definition regenotype (f : Q) (r : vrow) : vrow :=
+  {| v_chrom := v_chrom r; v_ckey := v_ckey r; v_start := v_start r; v_end := v_end r;
+     v_ref := v_ref r; v_alt := v_alt r; v_somatic := v_somatic r;
+     v_t := regeno_g f (v_t r); v_n := option_map (regeno_g f) (v_n r) |}.
+
+(* somatic by T/N genotypes: the tumour is not reference, the normal is *)
+Definition tn_somatic (r : vrow) : bool :=
+  match v_n r with
+  | Some n => negb (Qeq_bool (g_zyg (v_t r)) 0) && Qeq_bool (g_zyg n) 0
+  | None => false
+  end.
+
+(* not 0 and not 1, on the normal's zygosity when paired *)
+Definition het_by_zygosity (r : vrow) : bool :=
+  let z := germ_zyg r in negb (Qeq_bool z 0) && negb (Qeq_bool z 1).
+
+Definition load_het_finish (paired boost : bool) (rows1 : list vrow) : res (list lrow) :=
+  let lab := label_from 0 rows1 in
+  let kept := if paired then filter (fun lr => negb (tn_somatic (snd lr))) lab else lab in
+  let het := filter (fun lr => het_by_zygosity (snd lr)) kept in
+  let out := match het with [] => kept | _ => het end in
+  if boost then (if paired then Ok (boost_assign out) else Fail "ValueError") else Ok out.
+
+(* the whole table: (1) which zygosity_freq; (2) refused unless 0 <= f <= 1/2; (3) genotypes recomputed
+   from the frequencies FIRST; (4) then the T/N somatic drop on the recomputed genotypes (paired only);
+   (5) then the heterozygous subset with its keep-everything fallback; (6) then TumorBoost (ValueError
+   without a normal) *)
+Definition load_het_table (paired : bool) (zf : option Q) (boost : bool) (rows : list vrow)
+  : res (list lrow) :=
+  match zfreq_in_force paired zf rows with
+  | Some f =>
+      if Qle_bool 0 f && Qle_bool f (1 # 2)
+      then load_het_finish paired boost (map (regenotype f) rows)
+      else Fail "AssertionError"
+  | None => load_het_finish paired boost rows
+  end.
+
+(* per range with above_half = None: one value from the range's OWN hits *)
+Definition majority_value (hits : list xq) : xq :=
+  match hits with
+  | [] => XNaN
+  | [x] => x
+  | _ => nanmedian_x (map (mirror_x (majority_above (finite_of hits))) hits)
+  end.
